@@ -131,8 +131,24 @@ Qed.
 
 (* ---- transact --------------------------------------------------------------- *)
 
-Definition body_of (i : input) : bout := snd (run_body 0 (istmts i) (ifin i)).
-Definition body_log (i : input) : list logent := fst (run_body 0 (istmts i) (ifin i)).
+Definition body_of (i : input) : bout := snd (run_body 0 (estmts i) (ifin i)).
+Definition body_log (i : input) : list logent := fst (run_body 0 (estmts i) (ifin i)).
+
+Lemma let_through_true : forall i, let_through i = true -> is_dead (ictx i) = false /\ ibrk i = true.
+Proof.
+  intros i H. unfold let_through in H. apply andb_true_iff in H. destruct H as [H1 H2].
+  apply negb_true_iff in H1. split; assumption.
+Qed.
+
+Lemma not_through : forall i, let_through i = false ->
+  transact i = mkResult [] 0 None (if is_dead (ictx i) then ECanceled else EUnavailable).
+Proof.
+  intros i H. unfold let_through in H. unfold transact.
+  destruct (is_dead (ictx i)); [reflexivity|]. cbn in H. rewrite H. reflexivity.
+Qed.
+
+Lemma apply_ctx_length : forall c ss k, length (apply_ctx c k ss) = length ss.
+Proof. induction ss as [|s ss IH]; intros k; cbn [apply_ctx length]; [reflexivity|]. rewrite IH. reflexivity. Qed.
 
 Definition end_call (i : input) : logent :=
   match body_of i with
@@ -142,19 +158,20 @@ Definition end_call (i : input) : logent :=
 
 (* the shape of every run that gets past the breaker and Begin *)
 Lemma transact_shape : forall i,
-  ibrk i = true -> ibegin i = true ->
+  let_through i = true -> ibegin i = true ->
   rlog (transact i) = (CBegin, true) :: body_log i ++ [end_call i] /\
   rruns (transact i) = 1 /\
   rbody (transact i) = Some (body_of i).
 Proof.
-  intros i Hb Hg. unfold end_call, transact, transact_on_conn, body_of, body_log.
-  rewrite Hb, Hg. destruct (run_body 0 (istmts i) (ifin i)) as [bl o]. cbn [fst snd].
+  intros i Hb Hg. destruct (let_through_true i Hb) as [Hd Hk].
+  unfold end_call, transact, transact_on_conn, body_of, body_log.
+  rewrite Hd, Hk, Hg. destruct (run_body 0 (estmts i) (ifin i)) as [bl o]. cbn [fst snd].
   unfold deferred. destruct o; [destruct (icommit i) | destruct (irollback i) | destruct (irollback i)];
     cbn; repeat split; reflexivity.
 Qed.
 
 Lemma transact_err : forall i,
-  ibrk i = true -> ibegin i = true ->
+  let_through i = true -> ibegin i = true ->
   rerr (transact i) =
   match body_of i with
   | BNil => if icommit i then ENil else ECommit
@@ -162,8 +179,9 @@ Lemma transact_err : forall i,
   | BPanic => if irollback i then ERecover else ERecoverRollback
   end.
 Proof.
-  intros i Hb Hg. unfold transact, transact_on_conn, body_of. rewrite Hb, Hg.
-  destruct (run_body 0 (istmts i) (ifin i)) as [bl o]. cbn [snd].
+  intros i Hb Hg. destruct (let_through_true i Hb) as [Hd Hk].
+  unfold transact, transact_on_conn, body_of. rewrite Hd, Hk, Hg.
+  destruct (run_body 0 (estmts i) (ifin i)) as [bl o]. cbn [snd].
   unfold deferred. destruct o; [destruct (icommit i) | destruct (irollback i) | destruct (irollback i)];
     reflexivity.
 Qed.
@@ -187,7 +205,7 @@ Qed.
 
 (* T1 *)
 Lemma ends_exactly_once_l : forall i,
-  ibrk i = true ->
+  let_through i = true ->
   (ibegin i = false ->
      rlog (transact i) = [(CBegin, false)] /\ rruns (transact i) = 0 /\ rbody (transact i) = None) /\
   (ibegin i = true ->
@@ -200,7 +218,8 @@ Lemma ends_exactly_once_l : forall i,
        count is_end (rlog (transact i)) = 1%nat).
 Proof.
   intros i Hb. split; intros Hg.
-  - unfold transact, transact_on_conn. rewrite Hb, Hg. cbn. auto.
+  - destruct (let_through_true i Hb) as [Hd Hk].
+    unfold transact, transact_on_conn. rewrite Hd, Hk, Hg. cbn. auto.
   - destruct (transact_shape i Hb Hg) as (Hl & Hr & _). split; [exact Hr|].
     exists (body_log i), (fst (end_call i)), (snd (end_call i)).
     rewrite <- surjective_pairing. split; [exact Hl|].
@@ -219,13 +238,13 @@ Proof.
 Qed.
 
 Lemma breaker_refusal_l : forall i,
-  ibrk i = false ->
+  let_through i = false ->
   rlog (transact i) = [] /\ rruns (transact i) = 0 /\ rbody (transact i) = None /\
-  rerr (transact i) = EUnavailable.
-Proof. intros i Hb. unfold transact. rewrite Hb. cbn. auto. Qed.
+  rerr (transact i) = (if is_dead (ictx i) then ECanceled else EUnavailable).
+Proof. intros i Hb. rewrite (not_through i Hb). cbn. auto. Qed.
 
 Lemma in_log_cases : forall i c ok,
-  ibrk i = true -> ibegin i = true ->
+  let_through i = true -> ibegin i = true ->
   In (c, ok) (rlog (transact i)) ->
   (c, ok) = (CBegin, true) \/ (is_exec c = true) \/ (c, ok) = end_call i.
 Proof.
@@ -236,7 +255,7 @@ Proof.
   - right; right. auto.
 Qed.
 
-Lemma end_in_log : forall i, ibrk i = true -> ibegin i = true -> In (end_call i) (rlog (transact i)).
+Lemma end_in_log : forall i, let_through i = true -> ibegin i = true -> In (end_call i) (rlog (transact i)).
 Proof.
   intros i Hb Hg. destruct (transact_shape i Hb Hg) as (Hl & _). rewrite Hl.
   right. apply in_or_app. right. left. reflexivity.
@@ -244,7 +263,7 @@ Qed.
 
 (* T2 *)
 Lemma commit_iff_body_nil_l : forall i,
-  ibrk i = true -> ibegin i = true ->
+  let_through i = true -> ibegin i = true ->
   ((exists ok, In (CCommit, ok) (rlog (transact i))) <-> rbody (transact i) = Some BNil) /\
   ((exists ok, In (CRollback, ok) (rlog (transact i))) <->
      (rbody (transact i) = Some BPanic \/ exists b, rbody (transact i) = Some (BErr b))).
@@ -263,10 +282,10 @@ Qed.
 
 (* T2': the body's outcome is determined by its script *)
 Lemma body_outcome_l : forall i,
-  ibrk i = true -> ibegin i = true ->
-  (rbody (transact i) = Some BNil <-> (quiet (istmts i) /\ ifin i = RNil)) /\
-  (quiet (istmts i) -> rbody (transact i) = Some (fin_out (ifin i))) /\
-  (forall pre s post, istmts i = pre ++ s :: post -> quiet pre -> reacts s = true ->
+  let_through i = true -> ibegin i = true ->
+  (rbody (transact i) = Some BNil <-> (quiet (estmts i) /\ ifin i = RNil)) /\
+  (quiet (estmts i) -> rbody (transact i) = Some (fin_out (ifin i))) /\
+  (forall pre s post, estmts i = pre ++ s :: post -> quiet pre -> reacts s = true ->
      rbody (transact i) = Some (reaction (Z.of_nat (length pre)) s)).
 Proof.
   intros i Hb Hg. destruct (transact_shape i Hb Hg) as (_ & _ & Hbody). rewrite Hbody.
@@ -280,7 +299,7 @@ Qed.
 
 (* T3 *)
 Lemma panic_rolls_back_and_errors_l : forall i,
-  ibrk i = true -> ibegin i = true -> rbody (transact i) = Some BPanic ->
+  let_through i = true -> ibegin i = true -> rbody (transact i) = Some BPanic ->
   (exists mid, rlog (transact i) = (CBegin, true) :: mid ++ [(CRollback, irollback i)]) /\
   rerr (transact i) <> ENil /\
   rerr (transact i) = (if irollback i then ERecover else ERecoverRollback).
@@ -296,7 +315,7 @@ Qed.
 Lemma nil_iff_commit_succeeded_l : forall i,
   rerr (transact i) = ENil <-> In (CCommit, true) (rlog (transact i)).
 Proof.
-  intros i. destruct (ibrk i) eqn:Hb.
+  intros i. destruct (let_through i) eqn:Hb.
   - destruct (ibegin i) eqn:Hg.
     + rewrite (transact_err i Hb Hg). pose proof (end_in_log i Hb Hg) as Hend. split.
       * unfold end_call in Hend. revert Hend.
@@ -305,9 +324,10 @@ Proof.
       * intros Hin. destruct (in_log_cases i _ _ Hb Hg Hin) as [H | [H | H]]; try discriminate.
         unfold end_call in H. destruct (body_of i); try discriminate. injection H as H1.
         rewrite <- H1. reflexivity.
-    + unfold transact, transact_on_conn. rewrite Hb, Hg. cbn. split; [discriminate|].
+    + destruct (let_through_true i Hb) as [Hd Hk].
+      unfold transact, transact_on_conn. rewrite Hd, Hk, Hg. cbn. split; [discriminate|].
       intros [H | []]. discriminate.
-  - unfold transact. rewrite Hb. cbn. split; [discriminate | tauto].
+  - rewrite (not_through i Hb). cbn. split; [destruct (is_dead (ictx i)); discriminate | tauto].
 Qed.
 
 (* T5 *)
@@ -315,19 +335,20 @@ Lemma end_failures_surface_l : forall i,
   (In (CCommit, false) (rlog (transact i)) -> reports_commit_failure (rerr (transact i)) = true) /\
   (In (CRollback, false) (rlog (transact i)) -> reports_rollback_failure (rerr (transact i)) = true).
 Proof.
-  intros i. destruct (ibrk i) eqn:Hb; [destruct (ibegin i) eqn:Hg|].
+  intros i. destruct (let_through i) eqn:Hb; [destruct (ibegin i) eqn:Hg|].
   - rewrite (transact_err i Hb Hg). split; intros Hin;
       destruct (in_log_cases i _ _ Hb Hg Hin) as [H | [H | H]]; try discriminate;
       unfold end_call in H; destruct (body_of i); try discriminate; injection H as H1;
       rewrite <- H1; reflexivity.
-  - unfold transact, transact_on_conn. rewrite Hb, Hg. cbn.
+  - destruct (let_through_true i Hb) as [Hd Hk].
+    unfold transact, transact_on_conn. rewrite Hd, Hk, Hg. cbn.
     split; intros [H | []]; discriminate.
-  - unfold transact. rewrite Hb. cbn. tauto.
+  - rewrite (not_through i Hb). cbn. tauto.
 Qed.
 
 (* T6: when the rollback succeeds the caller gets exactly the body's error *)
 Lemma body_error_returned_l : forall i b,
-  ibrk i = true -> ibegin i = true -> rbody (transact i) = Some (BErr b) ->
+  let_through i = true -> ibegin i = true -> rbody (transact i) = Some (BErr b) ->
   rerr (transact i) = (if irollback i then EBody b else ETxFailedRollback b).
 Proof.
   intros i b Hb Hg Hp. destruct (transact_shape i Hb Hg) as (_ & _ & Hbody).
@@ -336,25 +357,70 @@ Qed.
 
 (* T7: statements reach the driver at most once each, in program order *)
 Lemma statements_in_order_l : forall i,
-  ibrk i = true -> ibegin i = true ->
+  let_through i = true -> ibegin i = true ->
   exists mid e, rlog (transact i) = (CBegin, true) :: mid ++ [e] /\
     StronglySorted (fun x y => exec_index x < exec_index y) mid /\
     Forall (fun x => 0 <= exec_index x < Z.of_nat (length (istmts i))) mid.
 Proof.
   intros i Hb Hg. destruct (transact_shape i Hb Hg) as (Hl & _).
   exists (body_log i), (end_call i). split; [exact Hl|].
-  unfold body_log. destruct (run_body_log (istmts i) 0 (ifin i)) as (_ & R & S). split; auto.
+  unfold body_log. destruct (run_body_log (estmts i) 0 (ifin i)) as (_ & R & S). split; auto.
+  unfold estmts in R. rewrite apply_ctx_length in R. exact R.
 Qed.
 
 (* T8: a body that never reacts runs every statement the driver can see *)
 Lemma quiet_body_runs_all_l : forall i j s,
-  ibrk i = true -> ibegin i = true -> quiet (istmts i) ->
-  nth_error (istmts i) j = Some s -> sres_of s <> SCtx ->
+  let_through i = true -> ibegin i = true -> quiet (estmts i) ->
+  nth_error (estmts i) j = Some s -> sres_of s <> SCtx ->
   In (CExec (Z.of_nat j), match sres_of s with SOk => true | _ => false end) (rlog (transact i)).
 Proof.
   intros i j s Hb Hg Hq Hn Hc. destruct (transact_shape i Hb Hg) as (Hl & _). rewrite Hl.
   right. apply in_or_app. left. unfold body_log.
-  exact (run_body_quiet_execs (istmts i) 0 (ifin i) j s Hq Hn Hc).
+  exact (run_body_quiet_execs (estmts i) 0 (ifin i) j s Hq Hn Hc).
+Qed.
+
+(* ---- the context ------------------------------------------------------------------- *)
+Lemma ends_at_most_once_l : forall i,
+  (count is_end (rlog (transact i)) <= 1)%nat /\
+  (count is_begin (rlog (transact i)) <= 1)%nat /\
+  (count is_end (rlog (transact i)) = 1%nat <-> (let_through i = true /\ ibegin i = true)).
+Proof.
+  intros i. destruct (let_through i) eqn:Hb.
+  - destruct (ibegin i) eqn:Hg.
+    + destruct (ends_exactly_once_l i Hb) as [_ H]. destruct (H Hg) as (_ & mid & last & ok & _ & _ & _ & Cb & Ce).
+      rewrite Cb, Ce. split; [lia|]. split; [lia|]. tauto.
+    + destruct (ends_exactly_once_l i Hb) as [H _]. destruct (H Hg) as (Hl & _). rewrite Hl.
+      unfold count. cbn. split; [lia|]. split; [lia|]. split; [discriminate | intros [_ ?]; discriminate].
+  - rewrite (not_through i Hb). unfold count. cbn. split; [lia|]. split; [lia|].
+    split; [discriminate | intros [? _]; discriminate].
+Qed.
+
+Lemma run_body_ctx : forall c ss k f x,
+  In x (fst (run_body k (apply_ctx c k ss) f)) -> ctx_covers c (exec_index x) = false.
+Proof.
+  induction ss as [|s ss IH]; intros k f x Hin; cbn [apply_ctx run_body fst] in Hin; [contradiction|].
+  destruct (ctx_covers c k) eqn:Hc; cbn [sres_of sonfail] in Hin.
+  - destruct (sonfail s); cbn [fst] in Hin; try contradiction. exact (IH _ _ _ Hin).
+  - destruct (sres_of s); destruct (sonfail s);
+      try (destruct (run_body (k + 1) (apply_ctx c (k + 1) ss) f) as [l o] eqn:E;
+           assert (IH' := IH (k + 1) f x); rewrite E in IH'; cbn [fst] in *);
+      cbn [fst In] in Hin;
+      repeat match goal with
+             | H : _ \/ _ |- _ => destruct H as [H | H]
+             | H : False |- _ => contradiction
+             | H : (CExec _, _) = x |- _ => subst x; cbn [exec_index fst]; exact Hc
+             end; auto.
+Qed.
+
+Lemma statements_after_cancel_l : forall i x,
+  let_through i = true -> ibegin i = true ->
+  In x (rlog (transact i)) -> is_exec (fst x) = true ->
+  ctx_covers (ictx i) (exec_index x) = false.
+Proof.
+  intros i x Hb Hg Hin Hx. destruct (transact_shape i Hb Hg) as (Hl & _). rewrite Hl in Hin.
+  destruct Hin as [<- | Hin]; [discriminate|]. apply in_app_or in Hin. destruct Hin as [Hin | [<- | []]].
+  - unfold body_log, estmts in Hin. exact (run_body_ctx _ _ _ _ _ Hin).
+  - pose proof (end_call_is_end i) as He. destruct (fst (end_call i)); discriminate.
 Qed.
 
 (* ---- the decidable check used on the implementation ------------------------- *)
@@ -380,14 +446,16 @@ Lemma model_passes_check_l : forall i, prop_ok (case_of i) = true /\ agrees (cas
 Proof.
   intros i. split.
   - unfold prop_ok, case_of. cbn [olog oruns obody oerr cin].
-    destruct (ibrk i) eqn:Hb; [destruct (ibegin i) eqn:Hg|].
+    destruct (let_through i) eqn:Hb; [destruct (ibegin i) eqn:Hg|].
     + destruct (transact_shape i Hb Hg) as (Hl & Hr & Hbody).
       rewrite Hl, Hr, Hbody, split_last_app, (transact_err i Hb Hg).
       rewrite (forallb_execs _ (body_log_execs i)). unfold end_call.
       destruct (body_of i); [destruct (icommit i) | destruct (irollback i) | destruct (irollback i)];
         reflexivity.
-    + unfold transact, transact_on_conn. rewrite Hb, Hg. reflexivity.
-    + unfold transact. rewrite Hb. reflexivity.
+    + destruct (let_through_true i Hb) as [Hd Hk].
+      unfold transact, transact_on_conn. rewrite Hd, Hk, Hg. reflexivity.
+    + rewrite (not_through i Hb). cbn [rlog rruns rbody rerr].
+      destruct (is_dead (ictx i)); reflexivity.
   - unfold agrees, case_of. cbn [olog oruns obody oerr cin oinuse].
     assert (Hl : forall l, list_eqb logent_eqb l l = true).
     { induction l as [|[c b] l IH]; [reflexivity|]. cbn. rewrite IH.
@@ -395,7 +463,7 @@ Proof.
     assert (Hbo : opt_eqb bout_eqb (rbody (transact i)) (rbody (transact i)) = true).
     { destruct (rbody (transact i)) as [[| [| k | k] |]|]; cbn; rewrite ?Z.eqb_refl; reflexivity. }
     assert (He : forall e, eobs_eqb e e = true).
-    { intros [[] [] [] [] [] [] [] []]; reflexivity. }
+    { intros [[] [] [] [] [] [] [] [] []]; reflexivity. }
     rewrite Hl, Z.eqb_refl, Hbo, He. reflexivity.
 Qed.
 
@@ -403,7 +471,7 @@ Qed.
 Lemma prop_ok_meaning_l : forall c,
   prop_ok c = true ->
   match olog c with
-  | [] => ibrk (cin c) = false /\ oruns c = 0 /\ e_nil (oerr c) = false
+  | [] => let_through (cin c) = false /\ oruns c = 0 /\ e_nil (oerr c) = false
   | (CBegin, false) :: rest => rest = [] /\ oruns c = 0 /\ e_nil (oerr c) = false
   | (CBegin, true) :: rest =>
     oruns c = 1 /\
